@@ -12,7 +12,10 @@ correspondence leg   real BaseRegularizer / DUCCIO on stub DNAS models (1..3 nam
 oracle leg           the property's own predicates on the real classes: strength x cost; finite,
                      non-negative, zero iff every cost <= target, grows with each excess; effective
                      strength = 1% at epoch 0, monotone in the epoch, = final strength from half of
-                     the schedule, never above it; derived strengths.
+                     the schedule, never above it; derived strengths; every metric annealed towards its
+                     OWN final strength (metric names out of alphabetical order, distinct strengths, one
+                     metric in excess at a time); call HISTORIES on one object (mixed schedule lengths, the
+                     no-argument form, epochs out of order): each call = the same call on a fresh object.
 """
 import math
 from fractions import Fraction as F
@@ -20,6 +23,12 @@ from fractions import Fraction as F
 from .. import regen
 
 KEY_DERIVED_AT_TARGET = 'C19:derived:c0==target'
+# metric names of the stub models, deliberately not in alphabetical order (the README's own example
+# is {'params': ..., 'ops': ...}): the i-th target must meet the i-th strength whatever the names
+NAMES = ['params', 'ops', 'macs', 'latency']
+# schedule lengths that divide 7920 = 2 * 3960: with final strengths 4000 * 2^j * k every float32
+# operation of the schedule is exact for all of them at once (call histories mix schedule lengths)
+HIST_NS = [1, 2, 3, 4, 5, 8, 10, 16, 20, 40]
 
 
 def q(x):
@@ -54,7 +63,7 @@ def real_duccio(metrics, epoch, n, derived_loss=None, initial=None):
     canonical final strengths)."""
     import torch
     from plinio.regularizers import DUCCIO
-    names = ['m%d' % i for i in range(len(metrics))]
+    names = NAMES[:len(metrics)]
     targets = {nm: torch.tensor(float(m[1])) for nm, m in zip(names, metrics)}
     if derived_loss is None:
         reg = DUCCIO(targets, final_strengths=tuple(torch.tensor(float(m[2])) for m in metrics))
@@ -143,6 +152,121 @@ def oracle_schedule(chk, s, n, exact):
             break
 
 
+def eff_exact(s, e, n):
+    """the schedule in exact arithmetic"""
+    s, e, n = F(s), F(e), F(n)
+    return min(s / 100 + e * (s * 99 / 100) / (n / 2), s)
+
+
+def oracle_per_metric(chk, names, strengths, n, epochs):
+    """each metric is annealed towards ITS OWN final strength: one metric in excess (by exactly 1) at a
+    time, the others below target, so that the value IS that metric's effective strength"""
+    import torch
+    from plinio.regularizers import DUCCIO
+    targets = {nm: torch.tensor(16.0) for nm in names}
+    for e in epochs:
+        for i, nm in enumerate(names):
+            reg = DUCCIO(dict(targets), final_strengths=tuple(torch.tensor(float(s)) for s in strengths))
+            val = _canon(reg(Stub({m: (17 if m == nm else 15) for m in names}), e, n))
+            want = 'ok:' + q(eff_exact(strengths[i], e, n))
+            chk.count(('per-metric', tuple(names), tuple(map(q, strengths)), nm, e, n), bucket='per-metric-strength',
+                      nontrivial=len(names) > 1)
+            if val != want:
+                chk.violation('C19:duccio:metric-not-on-its-own-strength',
+                              'metric %r (final strength %s, %d-th of targets %s) gets effective strength %s at epoch %d of %d; '
+                              'its own schedule gives %s' % (nm, q(strengths[i]), i, names, val, e, n, want),
+                              {'kind': 'per-metric', 'names': names, 'strengths': [q(x) for x in strengths], 'metric': nm,
+                               'epoch': e, 'n': n})
+                return False
+    return True
+
+
+def run_history(names, targets, calls, strengths=None, loss=None, fresh=False):
+    """values of a call history on ONE DUCCIO object; calls = [(costs, epoch, n, default_form)].
+    fresh=True: every call on a new object with the strengths the first call of the history fixed."""
+    import torch
+    from plinio.regularizers import DUCCIO
+    tg = {nm: torch.tensor(float(t)) for nm, t in zip(names, targets)}
+
+    def make(ss):
+        if ss is not None:
+            return DUCCIO(dict(tg), final_strengths=tuple(s.clone() if hasattr(s, 'clone') else torch.tensor(float(s)) for s in ss))
+        return DUCCIO(dict(tg), task_loss=torch.tensor(float(loss)))
+    reg = make(strengths)
+    out, fixed = [], None
+    for k, (costs, e, n, default) in enumerate(calls):
+        r = reg
+        if fresh and k > 0:
+            r = make(fixed)
+        model = Stub(dict(zip(names, costs)))
+        out.append(_canon(r(model) if default else r(model, e, n)))
+        if k == 0:
+            fixed = tuple(reg.final_strengths)
+    return out
+
+
+def gen_history(rng, k, length):
+    """a call history with the shapes that expose remembered state: the no-argument form, the same
+    epoch under different schedule lengths, epochs out of order"""
+    calls = []
+    for _ in range(length):
+        r = rng.random()
+        costs = [F(16) + rng.choice(DELTAS) for _ in range(k)]
+        if r < 0.2:
+            calls.append((costs, 1, 1, True))                     # regularizer(model)
+        elif r < 0.5 and calls:
+            e = calls[-1][1]                                        # same epoch, another schedule length
+            n = rng.choice([x for x in HIST_NS if x != calls[-1][2]])
+            calls.append((costs, e, n, False))
+        else:
+            n = rng.choice(HIST_NS)
+            calls.append((costs, rng.randint(0, n), n, False))
+    return calls
+
+
+def hist_case(names, targets, calls, strengths, loss, index):
+    return {'kind': 'history', 'names': names, 'targets': [q(t) for t in targets],
+            'strengths': None if strengths is None else [q(x) for x in strengths], 'loss': None if loss is None else q(loss),
+            'calls': [[[q(c) for c in costs], e, n, bool(d)] for costs, e, n, d in calls], 'index': index}
+
+
+def oracle_history(chk, names, targets, calls, strengths=None, loss=None):
+    """the value of every call depends on its own arguments (and the strengths fixed at the first call)
+    only: same call on a fresh object gives the same value"""
+    got = run_history(names, targets, calls, strengths, loss)
+    want = run_history(names, targets, calls, strengths, loss, fresh=True)
+    chk.count(('history', tuple(names), len(calls), tuple((e, n, d) for _, e, n, d in calls)), bucket='call-history',
+              nontrivial=len(calls) > 1)
+    for k, (a, b) in enumerate(zip(got, want)):
+        if a != b:
+            # shrink: one predecessor is usually enough
+            small = None
+            for j in range(k):
+                two = [calls[j], calls[k]]
+                g2 = run_history(names, targets, two, strengths, loss)
+                w2 = run_history(names, targets, two, strengths, loss, fresh=True)
+                if g2[1] != w2[1]:
+                    small, a, b = two, g2[1], w2[1]
+                    break
+            cs, kk = (small, 1) if small else (calls[:k + 1], k)
+            costs, e, n, d = cs[kk]
+            chk.violation('C19:duccio:call-depends-on-history',
+                          'call %s on a DUCCIO object that was called before returns %s, the same call on a fresh object '
+                          '(same final strengths) returns %s; previous call(s): %s'
+                          % ('regularizer(model)' if d else 'regularizer(model, %d, %d)' % (e, n), a, b,
+                             ['regularizer(model)' if dd else '(%d, %d)' % (ee, nn) for _, ee, nn, dd in cs[:kk]]),
+                          hist_case(names, targets, cs, strengths, loss, kk))
+            return False
+    return True
+
+
+def line_history(targets, calls, strengths, loss):
+    return 'hist targets=[%s] loss=%s strengths=%s calls=[%s]' % (
+        ','.join(q(t) for t in targets), q(loss or 0),
+        'none' if strengths is None else '[%s]' % ','.join(q(x) for x in strengths),
+        ','.join('[%s]' % ','.join([q(e), q(n)] + [q(c) for c in costs]) for costs, e, n, d in calls))
+
+
 def oracle_penalty(chk, ms, e, n):
     """finite, non-negative, zero iff all within target, grows with each excess"""
     val, _ = real_duccio(ms, e, n)
@@ -210,7 +334,9 @@ def run(chk):
     chk.rule = ('stub DNAS models with 1..3 named costs each below / at / above its target (cost - target in '
                 '{-2,-1/2,0,1/4,1,7/2}), final strengths given (100*n*2^j*(i+1), so that every float32 operation of '
                 'the schedule is exact) or derived from task_loss, EVERY epoch 0..n of EVERY n in 1..50; one real PIT '
-                'model with params and ops costs. non-trivial = some cost above target (non-zero penalty); distinct = '
+                'model with params and ops costs; call histories (2..7 calls) on one object with mixed (epoch, n_epochs) incl. the '
+                'no-argument form, same epoch under different n_epochs, epochs out of order; metric names not in alphabetical '
+                'order. non-trivial = some cost above target (non-zero penalty); distinct = '
                 'distinct (metric layout, epoch, n)')
     chk.trusted.append('float32 arithmetic of torch read as exact rationals (inputs chosen so that it is exact); '
                        'the loop over the metrics and the lazy initialisation of DUCCIO modelled as fold / first call')
@@ -268,6 +394,22 @@ def run(chk):
         cases = [c for c in cases if not c['kind'].startswith('pit')]
         lines = lines[:len(lines)]
 
+    # ---- call histories on one object (mixed schedule lengths, the no-argument form, epochs out of order)
+    for hi in range(60 if chk.quick else 600):
+        k = rng.randint(1, 3)
+        j = rng.choice([-2, -1, 0, 1, 2])
+        tg = [F(16)] * k
+        calls = gen_history(rng, k, rng.randint(2, 6))
+        if hi % 3 == 2:        # derived strengths: exact division by the initial excess
+            loss, strengths = F(4000) * F(2) ** j, None
+            first = [F(16) + rng.choice([F(1, 4), F(1, 2), F(1), F(2), F(4), F(-1), F(-4)] + ([F(0)] if hi % 15 == 2 else []))
+                     for _ in range(k)]
+            calls[0] = (first,) + calls[0][1:]
+        else:
+            loss, strengths = None, [F(4000) * F(2) ** j * (i + 1) for i in range(k)]
+        cases.append({'kind': 'hist', 'names': NAMES[:k], 'tg': tg, 'calls': calls, 'strengths': strengths, 'loss': loss})
+        lines.append(line_history(tg, calls, strengths, loss))
+
     model = None
     try:
         model = chk.driver('C19', lines)
@@ -304,6 +446,13 @@ def run(chk):
             chk.count(('derived', tuple(map(q, case['init'])), case['e'], case['n']), bucket='derived',
                       nontrivial=any(c > t for c, t in zip(case['now'], case['tg'])))
             # (the value under derived strengths is covered by the 'given' cases once the strengths agree)
+        elif kind == 'hist':
+            real = '[%s]' % ','.join(run_history(case['names'], case['tg'], case['calls'], case['strengths'], case['loss']))
+            if model is not None:
+                chk.corr({'kind': 'hist', 'line': lines[li]}, real, model[li],
+                         'values along a call history on one DUCCIO object, real class vs instance model')
+            li += 1
+            chk.count(('hist', lines[li - 1]), bucket='hist-corr', nontrivial=True)
         elif kind in ('base', 'pit-base'):
             if kind == 'base':
                 real = real_base(case['cost'], case['strength'])
@@ -336,6 +485,39 @@ def run(chk):
             ms = metrics_for(ds, j, n, tg)
             for e in sorted(set([0, n // 2, n, rng.randint(0, n)])):
                 oracle_penalty(chk, ms, e, n)
+    # every metric on its own strength: names out of alphabetical order, distinct strengths
+    for names in (['params', 'ops'], ['zeta', 'alpha', 'mid'], NAMES[:3], ['b', 'a']):
+        for n in ([1, 4, 10] if chk.quick and not broken else [1, 2, 4, 5, 10, 20, 40]):
+            strengths = [F(100 * n) * (2 * i + 1) for i in range(len(names))]
+            if not oracle_per_metric(chk, names, strengths, n, range(0, n + 1)):
+                break
+    # call histories on one object: each call vs the same call on a fresh object
+    for hi in range((80 if chk.quick else 800) * mult):
+        k = rng.randint(1, 3)
+        calls = gen_history(rng, k, rng.randint(2, 7))
+        if hi % 4 == 3:
+            calls[0] = ([F(16) + rng.choice([F(1, 4), F(1), F(4), F(-1)]) for _ in range(k)],) + calls[0][1:]
+            ok = oracle_history(chk, NAMES[:k], [F(16)] * k, calls, loss=F(4000))
+        elif hi % 4 == 2:      # arbitrary float strengths (identical float operations on both sides)
+            ok = oracle_history(chk, NAMES[:k], [F(16)] * k, calls,
+                                strengths=[F(rng.uniform(1e-6, 1e3)).limit_denominator(10 ** 9) for _ in range(k)])
+        else:
+            ok = oracle_history(chk, NAMES[:k], [F(16)] * k, calls,
+                                strengths=[F(4000) * F(2) ** rng.choice([-2, 0, 2]) * (i + 1) for i in range(k)])
+        if not ok:
+            break
+    # the seeding agents' shapes, always
+    for calls in ([([F(17)], 1, 1, True), ([F(17)], 1, 20, False)], [([F(17)], 4, 10, False), ([F(17)], 4, 40, False)],
+                  [([F(17)], 5, 10, False), ([F(17)], 2, 10, False), ([F(17)], 5, 10, False)]):
+        oracle_history(chk, ['params'], [F(16)], calls, strengths=[F(4000)])
+    # plain Python floats as final strengths (declared type: tuple of tensors): observed, not demanded
+    try:
+        DUCCIO({'c': 0.0}, final_strengths=(0.5,))(Stub({'c': 1}), 1, 10)
+    except TypeError:
+        chk.observe('final_strengths given as plain Python floats make DUCCIO.__call__ raise TypeError in torch.min '
+                    '(the declared type is a tuple of tensors; float targets and a float task_loss work)')
+    except Exception as ex:
+        chk.observe('final_strengths given as plain Python floats: %r' % (ex,))
     # derived strengths
     for d in (F(-4), F(-1, 2), F(0), F(1, 4), F(2)):
         for n in (1, 10):
@@ -386,6 +568,13 @@ def replay(data):
     elif kind == 'penalty':
         ms = [(F(a), F(b), F(s)) for a, b, s in case['ms']]
         oracle_penalty(c, ms, case['epoch'], case['n'])
+    elif kind == 'per-metric':
+        oracle_per_metric(c, case['names'], [F(x) for x in case['strengths']], case['n'], [case['epoch']])
+    elif kind == 'history':
+        calls = [([F(x) for x in costs], e, n, d) for costs, e, n, d in case['calls']]
+        oracle_history(c, case['names'], [F(t) for t in case['targets']], calls,
+                       strengths=None if case['strengths'] is None else [F(x) for x in case['strengths']],
+                       loss=None if case['loss'] is None else F(case['loss']))
     elif kind == 'base':
         real = real_base(F(case['cost']), F(case['strength']))
         print('impl=%s expected=ok:%s' % (real, q(F(case['cost']) * F(case['strength']))))
